@@ -92,26 +92,36 @@ _OUTSIDE = ["code points above U+00FF (cannot be sent in a latin-1 header block 
             "deprecated **kwargs attributes"]
 
 
-def pre_value(nameb: bytes, valueb: bytes, twice: bool) -> bool:
-    return len(nameb) <= P.LN and len(valueb) <= P.LV and in_shard(len(nameb) + (P.LN + 1) * len(valueb))
+def _mk(n, c1, c2):
+    """String of n (<= 2) characters from code points (chr() of a solver int stays symbolic and is
+    far cheaper for CrossHair than a symbolic bytes/str argument)."""
+    if n == 0:
+        return ""
+    if n == 1:
+        return chr(c1)
+    return chr(c1) + chr(c2)
 
 
-@harness(
-    pre=pre_value,
-    quick=dict(LN=1, LV=1, timeout=200, reach_timeout=60),
-    thorough=dict(LN=2, LV=2, timeout=1500, reach_timeout=90),
-    nshards=dict(quick=4, thorough=9),
-    reach=["sent", "quoted_value", "rejected", "set_twice"],
-    units=["web.RequestHandler.set_cookie", "web.RequestHandler.flush (Set-Cookie emission)",
-           "http.cookies.SimpleCookie/Morsel.OutputString/_quote (stdlib, pure Python)",
-           "http1connection.HTTP1Connection.write_headers", "httputil.parse_cookie", "httputil._unquote_cookie"],
-    stubs=_STUBS, outside=_OUTSIDE,
-)
-def h_cookie_value(nameb: bytes, valueb: bytes, twice: bool):
-    """Any name/value: set_cookie raises, or exactly one Set-Cookie that reads back as {name: value}
-    with only the default Path attribute; setting the name twice emits only the last setting."""
-    name = nameb.decode("latin-1")
-    value = valueb.decode("latin-1")
+def _pinned(n, c1, c2):
+    """Unused code points are pinned to 0 (no duplicate work)."""
+    return not ((n < 2 and c2 != 0) or (n < 1 and c1 != 0))
+
+
+def _cp(*cs):
+    for c in cs:
+        if not 0 <= c <= 255:
+            return False
+    return True
+
+
+_UNITS = ["web.RequestHandler.set_cookie", "web.RequestHandler.flush (Set-Cookie emission)",
+          "http.cookies.SimpleCookie/Morsel.OutputString/_quote (stdlib, pure Python)",
+          "http1connection.HTTP1Connection.write_headers", "httputil.parse_cookie", "httputil._unquote_cookie"]
+_CPSTUB = ["symbolic strings are built with chr() from solver-chosen code points 0..255 and a solver-chosen "
+           "length (far cheaper for CrossHair than symbolic str/bytes arguments)"]
+
+
+def _run_value(name, value, twice):
     with install() as env:
         h, conn, st = make_handler(env)
         try:
@@ -128,6 +138,50 @@ def h_cookie_value(nameb: bytes, valueb: bytes, twice: bool):
     if twice:
         reached("set_twice")
     _check(cookies, name, value, {}, False, False)
+
+
+def pre_value(vl: int, v1: int, v2: int, twice: bool) -> bool:
+    if not (0 <= vl <= P.LV and _cp(v1, v2) and _pinned(vl, v1, v2)):
+        return False
+    return in_shard(v1 // 32 if vl == 1 else ((v1 // 32) * 8 + v2 // 32 if vl == 2 else 0))
+
+
+@harness(
+    pre=pre_value,
+    quick=dict(LV=1, timeout=200, reach_timeout=60),
+    thorough=dict(LV=2, timeout=1500, reach_timeout=120),
+    nshards=dict(quick=8, thorough=64),
+    reach=["sent", "quoted_value", "rejected", "set_twice"],
+    units=_UNITS, stubs=_STUBS + _CPSTUB + ["cookie name fixed to 'n' here (names: h_cookie_name)"],
+    outside=_OUTSIDE,
+)
+def h_cookie_value(vl: int, v1: int, v2: int, twice: bool):
+    """Any value (name 'n'): set_cookie raises, or exactly one Set-Cookie that reads back as {n: value}
+    with only the default Path attribute; setting the name twice emits only the last setting."""
+    _run_value("n", _mk(vl, v1, v2), twice)
+
+
+NAME_VALUES = ("v", "", 'a";b\\', "\xe9 ")
+
+
+def pre_name(nl: int, n1: int, n2: int, vi: int, twice: bool) -> bool:
+    if not (0 <= nl <= P.LN and _cp(n1, n2) and _pinned(nl, n1, n2) and 0 <= vi < P.V):
+        return False
+    return in_shard(n1 // 32 + 8 * vi + (n2 // 32 if nl == 2 else 0))
+
+
+@harness(
+    pre=pre_name,
+    quick=dict(LN=1, V=1, timeout=250, reach_timeout=90),
+    thorough=dict(LN=2, V=4, timeout=1500, reach_timeout=120),
+    nshards=dict(quick=8, thorough=32),
+    reach=["sent", "rejected", "set_twice"],
+    units=_UNITS, stubs=_STUBS + _CPSTUB + ["value from a small pool (incl. one that needs quoting)"],
+    outside=_OUTSIDE,
+)
+def h_cookie_name(nl: int, n1: int, n2: int, vi: int, twice: bool):
+    """Any name: set_cookie raises, or the cookie reads back under exactly that name."""
+    _run_value(_mk(nl, n1, n2), NAME_VALUES[vi], twice)
 
 
 def pre_attr(which: int, ab: bytes, httponly: bool, secure: bool) -> bool:
@@ -179,6 +233,12 @@ def pre_maxage(max_age: int) -> bool:
 )
 def h_cookie_maxage(max_age: int):
     """A requested Max-Age is carried (or the call raises)."""
+    # concrete per path (7 forks): str(symbolic int) in the header would turn the read-back into
+    # hundreds of digit-string paths
+    for c in range(-3, 4):
+        if max_age == c:
+            max_age = c
+            break
     with install() as env:
         h, conn, st = make_handler(env)
         try:
